@@ -8,6 +8,7 @@ import (
 	"fmt"
 	"hash/fnv"
 	"io/ioutil"
+	"math"
 	"net"
 	"net/http"
 	"net/url"
@@ -162,8 +163,8 @@ func getGrafanaNetAddr(addr string) (string, string, string) {
 // NewGrafanaNet creates a special route that writes to a grafana.net datastore
 // We will automatically run the route and the destination
 func NewGrafanaNet(key string, matcher matcher.Matcher, cfg GrafanaNetConfig) (Route, error) {
-	if cfg.Concurrency < 1 || cfg.BufSize < 0 {
-		return nil, errors.New("NewGrafanaNet: concurrency must be at least 1 and bufSize must not be negative")
+	if cfg.Concurrency < 1 || cfg.Concurrency > 1<<16 || cfg.BufSize < 0 || cfg.BufSize > math.MaxInt32 {
+		return nil, errors.New("NewGrafanaNet: concurrency must be in 1..65536 and bufSize in 0..2^31-1")
 	}
 	schemas, err := getSchemas(cfg.SchemasFile)
 	if err != nil {
